@@ -127,6 +127,15 @@ def run(ctx):
     pkg_dir = os.path.join(ctx.snapshot("plain"), "catii")
     cube_cases = er.gen_cube_cases(ctx.rng, tier)
     index_cases = er.gen_index_cases(ctx.rng, tier)
+    if tier == "thorough":                      # three more draws of the same size
+        for k in range(3):
+            more_c, more_i = er.gen_cube_cases(ctx.rng, tier), er.gen_index_cases(ctx.rng, tier)
+            for c in more_c:
+                c["id"] += len(cube_cases)
+            for c in more_i:
+                c["id"] += len(index_cases)
+            cube_cases += more_c
+            index_cases += more_i
     claims = info.get("claims", [])
     ntrace_c, ntrace_i = (200, 300) if tier == "quick" else (700, 1500)
     res_t = _run_runtime(catii, cube_cases[:ntrace_c] + index_cases[:ntrace_i], claims, pkg_dir, trace=True)
